@@ -374,11 +374,11 @@ VALID_SEEDS = [
     '*.txt', '@(a|b)', '!(a)', '*(a|b)c', '+([a-z])', '?(x).y', '**/a', 'a/**/b', '[[:alpha:]]*', '[!a-c]', '[]]', '[a-]',
     '{a,b}c', '{1..3}', 'a|b', '!a', '-a', '\\*', 'a\\/b', '!(a|!(b))', '@(*(a)|?(b))', '**', '***', '/a/b', 'c:/a', '//h/s/a',
     '~', '~root/a', '\\x41', '\\N{DIGIT ONE}', '\\u0041', '\\101', '[\\]]', '@([a)b])', '.', '..', './a', '../a', '.*', '*.',
-    '[[:alpha:][:digit:]-z]', '[a-z-9]', '[^\\-a]', 'a//b', '@(a/b)', '*(a|b/c)', '!(*.a|*.b)', '+(a)|+(b)', '{a,{b,c}}',
+    '[[:alpha:][:digit:]-z]', '[a-z-9]', '[(?#)]', '[x(?#)]', '[^\\-a]', 'a//b', '@(a/b)', '*(a|b/c)', '!(*.a|*.b)', '+(a)|+(b)', '{a,{b,c}}',
 ]
 SOUP = ['!(', '?(', '*(', '@(', '+(', ')', '|', 'a', 'b', 'A', '*', '**', '***', '?', '/', '//', '.', '..', '[', ']', '[!', '[^', '\\',
         '\\\\', '-', '{', '}', ',', '..', '~', '!', '1', '9', '[:alpha:]', '[:x:]', '\\x', '\\x41', '\\u', '\\N{', '\\N{DIGIT ONE}',
-        '\\U00110000', '\\0', '\\777', '\n', ' ', '\x00', '\xe9', 'c:', '^', '&', '&&', '||', '~~', '--', '\\/', '\\.', '$']
+        '\\U00110000', '\\0', '\\777', '\n', ' ', '\x00', '\xe9', 'c:', '^', '&', '&&', '||', '~~', '--', '\\/', '\\.', '$', '(?#)', '?:', '#', '(?', '\\Z', '(?i:']
 FS_UNSAFE = ('FOLLOW',)
 
 
